@@ -282,6 +282,10 @@ where
     pub const fn get_pixel(&self, p: Point) -> Option<C> {
         let Point { x, y } = p;
 
+        if x < 0 || y < 0 || x >= SIZE as i32 || y >= SIZE as i32 {
+            return None;
+        }
+
         self.pixels[x as usize + y as usize * SIZE]
     }
 
